@@ -257,6 +257,7 @@ type Frame struct {
 	callCount map[string]int
 	lastRet   map[string]Value // results of the latest call through an unknown function value, by its term
 	locals    map[string][]ssa.Value // source name -> SSA values (from DebugRef)
+	localAt   map[string][]*ssa.DebugRef // the reference each of those values was recorded at (same order)
 	localAddr map[string]ssa.Value   // source name -> address (address-taken locals)
 	cur       *ssa.BasicBlock
 	names     map[string]Value // overrides (loop phis, results)
@@ -269,7 +270,7 @@ type Frame struct {
 func (r *Run) newFrame(fn *ssa.Function, depth int) *Frame {
 	fr := &Frame{run: r, fn: fn, vals: map[ssa.Value]Value{}, depth: depth,
 		rpoIdx: map[*ssa.BasicBlock]int{}, loops: map[*ssa.BasicBlock]*loopInfo{},
-		edgeSt: map[[2]int]*State{}, callCount: map[string]int{}, locals: map[string][]ssa.Value{},
+		edgeSt: map[[2]int]*State{}, callCount: map[string]int{}, locals: map[string][]ssa.Value{}, localAt: map[string][]*ssa.DebugRef{},
 		localAddr: map[string]ssa.Value{}, names: map[string]Value{}, lets: map[string]Expr{}}
 	fr.analyse()
 	return fr
@@ -374,6 +375,7 @@ func (fr *Frame) analyse() {
 					fr.localAddr[id.Name] = d.X
 				} else {
 					fr.locals[id.Name] = append(fr.locals[id.Name], d.X)
+					fr.localAt[id.Name] = append(fr.localAt[id.Name], d)
 				}
 			}
 		}
